@@ -60,7 +60,9 @@ def tree_hash(repo=REPO):
 
 
 def ensure_driver():
-    if not os.path.exists(DRIVER):
+    """build the driver when it is missing or older than its sources"""
+    srcs = [os.path.join(VERIF, "engine", x) for x in ("src/main.rs", "Cargo.toml", "rust-toolchain.toml")]
+    if not os.path.exists(DRIVER) or any(os.path.exists(x) and os.path.getmtime(x) > os.path.getmtime(DRIVER) for x in srcs):
         build_driver()
 
 
